@@ -377,8 +377,10 @@ func (set *Set) add(hosts ...*Host) {
 			set.removeFromHealthy(old)
 		}
 		set.all[host.Addr] = host
+		// Not in one batch after the loop, a later host of the same batch
+		// may replace this one.
+		set.addToHealthy(host)
 	}
-	set.addToHealthy(hosts...)
 }
 
 // Remove removes host from the set.
